@@ -1,12 +1,15 @@
 """C17 -- density-estimation caching and size-dependent code paths are transparent.
 
-Only two clauses are structural; they are decided and nothing else is claimed:
+Decided structural clauses (nothing else is claimed):
  D1 the matrix-entry cache holds the lambda-free value of the very pair it is keyed by, and a hit is used exactly like a
     freshly computed value
  D2 a right-hand-side entry is copied from the previous step only if both its point and its support domain match, and the
-    entry copied is the one the domain match found for that same point
+    entry copied is the one the domain match found for that same point; the old support domains and the old points are those
+    of the stored mesh of the same key as the copied right-hand side
  D3 the hand-over of the caches between iterations replaces old by new (nothing of an older step survives)
-Not decided: equality of results with reuse on/off over histories, small-grid vs large-grid equality."""
+ D4 the hat implementations behind the small-grid and large-grid paths count the centre of a hat exactly once (sa/hats.py)
+ D5 per-dimension caches (data bins) are distinct objects per dimension (no list multiplication of a mutable)
+Not decided: equality of results with reuse on/off over histories, small-grid vs large-grid equality as values."""
 import ast
 
 from ..cfg import cfg_of, walk_local
@@ -138,38 +141,116 @@ def run(prog, ctx):
         ctx.touch(fi)
         tmf = Terms(fi.node, max_depth=0)
         cf = cfg_of(fi)
+        # roles (not names): OB the local bound to self.old_B[K]; a copy site is  b[p] = OB[DM[p]]
+        old_b_defs = {}
+        for nm, bs in tmf.env.bindings.items():
+            for b in bs:
+                if b.kind == "assign" and b.value is not None:
+                    t = tmf.term(b.value)
+                    if t[0] == "s" and t[1] == ("a", ("n", fi.self_name), "old_B"):
+                        old_b_defs[nm] = t[2]
         for n in cf.nodes:
             if n.kind == "stmt" and isinstance(n.ast, ast.Assign) and isinstance(n.ast.targets[0], ast.Subscript) and n.idx in cf.reachable():
                 v = tmf.term(n.ast.value)
-                if not (v[0] == "s" and v[1] == ("n", "old_b")):
+                if not (v[0] == "s" and v[1][0] == "n" and v[1][1] in old_b_defs):
                     continue
                 n2 += 1
+                OBK = old_b_defs[v[1][1]]
                 p = tmf.term(n.ast.targets[0].slice)
                 guards = [g for (g, gn) in R.dominating_guards(fi, n, tmf) if gn.kind == "test" and n.loops and cf.in_loop(gn, n.loops[-1])]
-                pt = ("s", ("n", "point_list"), p)
-                dm = ("s", ("n", "domain_match"), p)
-                in_old = norm_cmp("In", pt, ("n", "old_point_list")) in guards
-                matched = any(g[0] == "cmp" and g[1] == "NotEq" and dm in (g[2], g[3]) and ("c", "-1") in (g[2], g[3]) for g in guards) or \
-                    any(g[0] == "cmp" and g[1] in ("LtE",) and g[2] == ("c", "0") and g[3] == dm for g in guards)
-                idx_ok = v[2] == dm
+                # membership guard  PL[p] in OPL  fixes the roles of the new and the old point list
+                mem = [g for g in guards if g[0] == "cmp" and g[1] == "In" and g[2][0] == "s" and g[2][2] == p and g[2][1][0] == "n" and g[3][0] == "n"]
+                in_old = bool(mem)
+                PL, OPL = (mem[0][2][1][1], mem[0][3][1]) if mem else (None, None)
+                DM = v[2][1] if v[2][0] == "s" and v[2][2] == p and v[2][1][0] == "n" else None
+                dm = ("s", DM, p) if DM is not None else None
+                matched = dm is not None and (any(g[0] == "cmp" and g[1] == "NotEq" and dm in (g[2], g[3]) and ("c", "-1") in (g[2], g[3]) for g in guards) or
+                                              any(g[0] == "cmp" and g[1] in ("LtE",) and g[2] == ("c", "0") and g[3] == dm for g in guards))
+                idx_ok = dm is not None and v[2] == dm
                 ctx.check(in_old and matched and idx_ok, "C17.D2", R.key_of(fi, "copy-guard#%d" % n2), fi.loc(n.ast),
                           "an old entry is copied only for a point of the old grid whose support domain matched, from the matched position",
                           "`%s` copies a right-hand-side entry %s%s%s" % (src(n.ast), "" if in_old else "without testing that the point existed in the old grid; ",
                                                                           "" if matched else "without testing that its support domain is unchanged; ",
                                                                           "" if idx_ok else "from a position other than the domain match of the same point"))
+                # the domains that are compared: new domains on the new mesh for the new points, old domains on the OLD mesh stored
+                # under the same key as the old right-hand side, for the old points (themselves the points of that old mesh)
+                if PL is not None:
+                    n2 += 1
+                    old_mesh = ("s", ("a", ("n", fi.self_name), "old_grid_coord"), OBK)
+                    tfull = Terms(fi.node, max_depth=0)
+                    tdeep = Terms(fi.node)
+                    doms = {}
+                    for nm, bs in tfull.env.bindings.items():
+                        for b in bs:
+                            if b.kind == "assign" and isinstance(b.value, ast.ListComp):
+                                t = tfull.term(b.value)
+                                if t[0] == "comp" and t[2][0] == "call" and t[2][1] == ("a", ("n", fi.self_name), "get_hat_domain") and len(t[3]) == 1 \
+                                        and len(t[2][2]) == 2 and t[2][2][0] == ("bv", "$0") and isinstance(b.value.elt, ast.Call) and len(b.value.elt.args) == 2:
+                                    doms[t[3][0][1]] = (tdeep.term(b.value.elt.args[1]), b)
+                    problems = []
+                    newd, oldd = doms.get(("n", PL)), doms.get(("n", OPL))
+                    if newd is None or oldd is None:
+                        problems.append("the support domains of the new / old points are no longer computed by get_hat_domain per point")
+                    else:
+                        if oldd[0] != old_mesh:
+                            problems.append("the support domains of the OLD points are computed on %s, not on the old mesh %s that the copied values belong to"
+                                            % (show(oldd[0]), show(old_mesh)))
+                        if any(x == ("a", ("n", fi.self_name), "old_grid_coord") for x in subterms(newd[0])):
+                            problems.append("the support domains of the new points are computed on %s, not on the current mesh" % show(newd[0]))
+                    opl_defs = [tdeep.term(b.value) for b in tfull.env.bindings.get(OPL, []) if b.kind == "assign" and b.value is not None]
+                    if not opl_defs or not all(any(x == old_mesh for x in subterms(t)) for t in opl_defs):
+                        problems.append("the old point list is not built from the old mesh %s" % show(old_mesh))
+                    ctx.check(not problems, "C17.D2", R.key_of(fi, "old-domains-on-old-mesh"), fi.loc(oldd[1].stmt) if oldd else fi.loc(n.ast),
+                              "old support domains and old points come from the stored mesh of the same key as the copied right-hand side",
+                              "reuse of right-hand-side entries: " + "; ".join(problems))
         # the domain match compares both ends of the support in every dimension
         for st in walk_local(fi.node):
-            if isinstance(st, ast.Assign) and isinstance(st.targets[0], ast.Name) and st.targets[0].id == "a" and isinstance(st.value, ast.ListComp):
+            if isinstance(st, ast.Assign) and isinstance(st.targets[0], ast.Name) and isinstance(st.value, ast.ListComp) \
+                    and any(isinstance(x, ast.Compare) and isinstance(x.ops[0], ast.Eq) and isinstance(x.left, ast.Subscript) for x in ast.walk(st.value)) \
+                    and any(isinstance(x, ast.Attribute) and x.attr == "dim" for x in ast.walk(st.value)):
                 t = Terms(fi.node).term(st.value)
-                ends = {x[2] for x in subterms(t) if x[0] == "cmp" and x[1] == "Eq" and x[2][0] == "s" and x[3][0] == "s"}
                 both = any(x[0] == "cmp" and x[1] == "Eq" and x[2][0] == "s" and x[2][2] == ("c", "0") for x in subterms(t)) and \
                     any(x[0] == "cmp" and x[1] == "Eq" and x[2][0] == "s" and x[2][2] == ("c", "1") for x in subterms(t))
-                alld = any(x == ("op", "Add", ()) for x in ()) or any(x[0] == "cmp" and x[1] == "Eq" and ("a", ("n", "self"), "dim") in (x[2], x[3]) for x in subterms(t))
+                alld = any(x[0] == "cmp" and x[1] == "Eq" and ("a", ("n", "self"), "dim") in (x[2], x[3]) for x in subterms(t))
                 n2 += 1
                 ctx.check(both and alld, "C17.D2", R.key_of(fi, "domain-match-all-dims"), fi.loc(st),
                           "a support domain matches only if start and end agree in all dimensions",
                           "the domain match of %s no longer requires start AND end to agree in all self.dim dimensions" % fi.name)
     ctx.floor("C17.D2", n2, 4, "copy sites and domain-match definitions")
+
+    # ------------------------------------------------------------------ D4 (shared with C16.D7 / C20.D6): the small-grid and the
+    # large-grid interpolation / right-hand side use different hat implementations; they agree on grid points only if each counts
+    # the centre of a hat exactly once
+    from ..hats import check_hat_centre
+    ctx.floor("C17.D4", check_hat_centre(prog, ctx, "C17.D4"), 3, "hat implementations analysed for the centre rule")
+
+    # ------------------------------------------------------------------ D5 per-dimension caches are distinct objects
+    def _mutable(e):
+        return isinstance(e, (ast.Dict, ast.List, ast.Set, ast.ListComp, ast.DictComp, ast.SetComp)) or \
+            (isinstance(e, ast.Call) and isinstance(e.func, ast.Name) and e.func.id in ("dict", "list", "set", "defaultdict", "OrderedDict"))
+    n5 = 0
+    for ci in prog.cls(DE).mro:
+        if ci.module.name != "GridOperation":
+            continue
+        for f in ci.methods.values():
+            for s_ in R.self_stores(f):
+                v = s_.value
+                if s_.kind != "plain" or v is None:
+                    continue
+                if isinstance(v, ast.BinOp) and isinstance(v.op, ast.Mult):
+                    for side in (v.left, v.right):
+                        if isinstance(side, ast.List) and len(side.elts) == 1 and _mutable(side.elts[0]):
+                            n5 += 1
+                            ctx.touch(f)
+                            ctx.violation("C17.D5", R.key_of(f, "distinct-per-dimension:%s" % s_.attr), f.loc(s_.stmt),
+                                          "`%s` makes every dimension share ONE mutable object: what is cached for one dimension is returned for "
+                                          "another (list multiplication copies the reference)" % src(s_.stmt))
+                elif isinstance(v, ast.ListComp) and _mutable(v.elt):
+                    n5 += 1
+                    ctx.touch(f)
+                    ctx.ok("C17.D5", R.key_of(f, "distinct-per-dimension:%s" % s_.attr), f.loc(s_.stmt),
+                           "one fresh object per dimension (comprehension)")
+    ctx.floor("C17.D5", n5, 1, "per-dimension cache containers of the density estimation")
 
     # ------------------------------------------------------------------ D3
     # hand-over between iterations
